@@ -66,6 +66,11 @@ pub broadcast axiom fn r_div_pos(a: f64, b: f64) ensures
 pub broadcast axiom fn r_div_special(a: f64, b: f64) ensures R(b) != 0real && R(a) == 0real ==> R(#[trigger] a.div_spec(b)) == 0real,
     R(b) != 0real && R(a) == R(b) ==> R(a.div_spec(b)) == 1real,
     R(b) != 0real && R(a) == 0real - R(b) ==> R(a.div_spec(b)) == 0real - 1real;
+/// exact square root, square and usize -> f64 conversion below 2^53 (not in the default group: used by the error-norm clauses of C13)
+pub broadcast axiom fn r_sqrt_exact(a: f64) ensures R(a) >= 0real ==> R(#[trigger] s_sqrt(a)) >= 0real && R(s_sqrt(a)) * R(s_sqrt(a)) == R(a);
+pub broadcast axiom fn r_powi2(a: f64) ensures R(#[trigger] s_powi(a, 2)) == R(a) * R(a);
+pub broadcast axiom fn r_of_usize_53(x: usize) ensures x < 0x20_0000_0000_0000 ==> R(#[trigger] s_of_usize(x)) == x as int as real;
+pub broadcast group rms_axioms { r_sqrt_exact, r_powi2, r_of_usize_53, r_div_exact }
 /// exact division (not in the default group: units that need the quotient itself `broadcast use` it)
 pub broadcast axiom fn r_div_exact(a: f64, b: f64) ensures R(b) != 0real ==> R(#[trigger] a.div_spec(b)) == R(a) / R(b);
 pub broadcast axiom fn r_mul_nonzero(a: f64, b: f64) ensures R(a) != 0real && R(b) != 0real ==> R(#[trigger] a.mul_spec(b)) != 0real;
